@@ -1,6 +1,8 @@
 import AsynqModel.Sexp
 import AsynqModel.Drv.Futures
 import AsynqModel.Drv.Core
+import AsynqModel.Drv.Mock
+import AsynqModel.Drv.Dedup
 import AsynqModel.Drv.Batching
 import AsynqModel.Drv.Generator
 import AsynqModel.Drv.Tools
@@ -11,6 +13,8 @@ def handleCase (mode : String) (id : Nat) (hdr body : List Sexp) : String :=
   match mode with
   | "futures" => Drv.Futures.handle id hdr body
   | "core" => Drv.Core.handle id hdr body
+  | "mock" => Drv.Mock.handle id hdr body
+  | "dedup" => Drv.Dedup.handle id hdr body
   | "batching" => Drv.Batching.handle id hdr body
   | "generator" => Drv.Generator.handle id hdr body
   | "tools" => Drv.Tools.handle id hdr body
